@@ -372,6 +372,48 @@ func (t *mergeTap) forCid(docID, cid string) []mergeSeen {
 	return out
 }
 
+// pubSubTap records when A's pubsub layer last reported a join/leave of a peer (event.PubSub).
+type pubSubTap struct {
+	sub  event.Subscription
+	bus  event.Bus
+	mu   sync.Mutex
+	last map[peer.ID]time.Time
+}
+
+func newPubSubTap(n *hx.Node) *pubSubTap {
+	sub, err := n.DB.Events().Subscribe(event.PubSubName)
+	if err != nil {
+		hx.Harnessf("subscribe: %v", err)
+	}
+	t := &pubSubTap{sub: sub, bus: n.DB.Events(), last: map[peer.ID]time.Time{}}
+	go func() {
+		for m := range sub.Message() {
+			if d, ok := m.Data.(event.PubSub); ok {
+				t.mu.Lock()
+				t.last[d.Peer] = time.Now()
+				t.mu.Unlock()
+			}
+		}
+	}()
+	return t
+}
+
+func (t *pubSubTap) close() { t.bus.Unsubscribe(t.sub) }
+
+// waitSince waits until an event about the peer arrived after t0 (at most max).
+func (t *pubSubTap) waitSince(id peer.ID, t0 time.Time, max time.Duration) bool {
+	for time.Since(t0) < max {
+		t.mu.Lock()
+		seen := t.last[id].After(t0)
+		t.mu.Unlock()
+		if seen {
+			return true
+		}
+		time.Sleep(20 * time.Millisecond)
+	}
+	return false
+}
+
 // ---------------------------------------------------------------- model
 
 type mdoc struct {
@@ -397,6 +439,7 @@ type world struct {
 	a, b               *pnode
 	atap               *hx.EventTap
 	btap               *mergeTap
+	aps                *pubSubTap
 	docs               map[int]*mdoc // by slot; slot -1 is the canary
 	order              []int
 	aPatches, bPatches int
@@ -1113,12 +1156,20 @@ func (w *world) pubsubFinal() *hx.Failure {
 		}
 	}
 	lag := live
+	cleaned := false
 	for round := 0; round < rounds && len(lag) > 0; round++ {
 		if round > 0 {
 			w.info.set("pubsub-needed-renudge")
 			if err := w.a.N.Peer.Connect(w.a.Ctx, w.b.info); err != nil {
 				w.tr.f("explicit connect A->B failed: %v", err)
 			}
+		}
+		if round == 3 {
+			// Nothing after three rounds: reconnect once more, cleanly. The claim for pubsub-only
+			// configurations is delivery after a reconnection, so this stays within its precondition;
+			// a case that only recovers here is counted (label) and not reported.
+			w.cleanReconnect()
+			cleaned = true
 		}
 		for _, slot := range lag {
 			d := w.docs[slot]
@@ -1180,6 +1231,9 @@ func (w *world) pubsubFinal() *hx.Failure {
 		return hx.Failf(sig,
 			"B is subscribed to the collection and connected to A, %d updates of slots %v were written on A after the reconnection over %v, none reached B\n%sstate:\n%strace:\n%s",
 			rounds, lag, time.Duration(rounds)*perRound, why.String(), s.describe(w), w.tr)
+	}
+	if cleaned {
+		w.info.set("pubsub-recovered-only-after-clean-reconnect")
 	}
 	return w.compareContent(live, "pubsub final")
 }
@@ -1274,6 +1328,7 @@ func (w *world) toggle(op Op) {
 	}
 	w.tr.f("B peer %s begins (burst of %d)", op.K, len(op.Burst))
 	w.bView = "changing"
+	closeStart := time.Now()
 	go func() {
 		defer func() { done <- recover() }()
 		if down {
@@ -1291,6 +1346,9 @@ func (w *world) toggle(op Op) {
 	}
 	w.bView = map[bool]string{true: "up", false: "down"}[w.b.up]
 	w.tr.f("B peer %s done", op.K)
+	if down && w.c.Config == "pubsub" {
+		w.awaitLeft(closeStart)
+	}
 	if !down && w.c.Config == "pubsub" {
 		// reconnection is part of the pubsub-only precondition
 		if err := w.b.N.Peer.Connect(w.b.Ctx, w.a.info); err != nil {
@@ -1298,6 +1356,34 @@ func (w *world) toggle(op Op) {
 		}
 		time.Sleep(300 * time.Millisecond)
 	}
+}
+
+// awaitLeft is the soundness guard of pubsub-only configurations: B's outage lasts at least until
+// A's pubsub layer has noticed that B left. go-libp2p-pubsub (handleDeadPeers) forgets the topics
+// of a peer whose old connection is reported dead after its new connection and hello have already
+// been processed, and the peer announces its subscriptions only once per stream; a restart faster
+// than the detection of the closed connection can therefore leave A without B's subscription
+// until the next reconnection. That is outside the anchored code and outside what is claimed.
+func (w *world) awaitLeft(closeStart time.Time) {
+	if w.aps.waitSince(w.b.info.ID, closeStart, 3*time.Second) {
+		time.Sleep(50 * time.Millisecond)
+		return
+	}
+	w.tr.f("A's pubsub reported no leave of B within 3s of the close (not an oracle)")
+}
+
+// cleanReconnect closes B's peer, waits until A's pubsub has seen it leave, reopens and reconnects.
+func (w *world) cleanReconnect() {
+	t0 := time.Now()
+	w.b.closePeer()
+	w.awaitLeft(t0)
+	time.Sleep(500 * time.Millisecond)
+	w.b.openPeer()
+	if err := w.b.N.Peer.Connect(w.b.Ctx, w.a.info); err != nil {
+		w.tr.f("explicit connect B->A failed: %v", err)
+	}
+	time.Sleep(300 * time.Millisecond)
+	w.tr.f("clean reconnect of B done")
 }
 
 func (w *world) waitDelivered(slot int) {
@@ -1357,6 +1443,8 @@ func run(c Case, info *runInfo) *hx.Failure {
 	defer func() { close(stopSampler); <-samplerDone }()
 	w.btap = newMergeTap(w.b.Node)
 	defer w.btap.close()
+	w.aps = newPubSubTap(w.a.Node)
+	defer w.aps.close()
 
 	if c.Config != "rep" {
 		if err := w.b.N.Peer.AddP2PCollections(w.b.Ctx, "Users"); err != nil {
